@@ -921,6 +921,32 @@ theorem act_lsumM_map (f : Mat K d d → Mat K (d * d) (d * d)) (c : Mat K d d) 
   simp [List.map_map, Function.comp_def]
 end jump
 
+section hermmode
+variable {K : Type} [Field K] [StarRing K] {d : Nat}
+
+/-- `convert_hs` to the Hermitian basis is additive -/
+theorem toHerm_add (B : Basis K d) (L M : Mat K (d * d) (d * d)) :
+    toHerm B (L.add M) = (toHerm B L).add (toHerm B M) := by
+  apply Mat.ext'; intro a b
+  simp only [add_get, toHerm_get, mul_add, add_mul, Finset.sum_add_distrib]
+
+/-- a comp-basis superoperator is determined by its action on the matrix units -/
+theorem act_ext (L M : Mat K (d * d) (d * d)) (h : ∀ rho : Mat K d d, (act L rho).toM = (act M rho).toM) : L = M := by
+  apply Mat.ext'; intro r c
+  have := congrFun (congrFun (h (Mat.ofFn fun a b => if a = p1 c ∧ b = p2 c then 1 else 0)) (p1 r)) (p2 r)
+  simp only [Mat.toM_apply, act_get, Mat.get_ofFn, pr_p1_p2] at this
+  have e : ∀ N : Mat K (d * d) (d * d), (∑ k, ∑ l, N.get r (pr k l) * (if k = p1 c ∧ l = p2 c then (1 : K) else 0)) = N.get r c := by
+    intro N
+    rw [Finset.sum_eq_single (p1 c), Finset.sum_eq_single (p2 c)]
+    · simp
+    · intro l _ hl; simp [hl]
+    · intro hx; exact absurd (Finset.mem_univ _) hx
+    · intro k _ hk
+      apply Finset.sum_eq_zero; intro l _; simp [hk]
+    · intro hx; exact absurd (Finset.mem_univ _) hx
+  rwa [e L, e M] at this
+end hermmode
+
 section examples
 /-- the basis `{(1)}` of the one-dimensional system -/
 def basis1 : Basis ℂ 1 := Vec.ofFn fun _ => Mat.one
